@@ -6,6 +6,8 @@ returns the canonical Buffer of the bit-list operation — for all bit lists, bo
 chunk size.
 -/
 import Schc.Proofs.BufChunks
+import Schc.Proofs.BufBitwise
+import Schc.Proofs.BufValue
 
 namespace Schc
 
@@ -27,24 +29,26 @@ theorem C06_shift_right_all (a : ABuf) (s : Nat) (h : a.bits.length ≤ s) : (sp
   have : a.bits.length - s = 0 := by omega
   rw [this]; rfl
 
-/-- `&`, `|`, `^`: bit-wise over equal-length operands (either sides), ValueError otherwise; right operand unchanged -/
-theorem C06_and (a b : ABuf) : Buf.band (Buf.ofABuf a) (Buf.ofABuf b) =
-    if a.bits.length = b.bits.length then .ok (Buf.ofABuf ⟨List.zipWith (· && ·) a.bits b.bits, a.side⟩, Buf.ofABuf b) else .error .valueError :=
-  band_spec a b
+/-- `&`, `|`, `^`: bit-wise over equal-length operands (either sides), ValueError otherwise. (That the right operand
+    is left as it was is C16's `C16_pure_and/or/xor`; these statements hold whatever the internal re-padding does
+    to it.) -/
+theorem C06_and (a b : ABuf) : (Buf.band (Buf.ofABuf a) (Buf.ofABuf b)).map (·.1) =
+    if a.bits.length = b.bits.length then .ok (Buf.ofABuf ⟨List.zipWith (· && ·) a.bits b.bits, a.side⟩) else .error .valueError := by
+  rw [band_spec, map_fst_ite]
 
-theorem C06_or (a b : ABuf) : Buf.bor (Buf.ofABuf a) (Buf.ofABuf b) =
-    if a.bits.length = b.bits.length then .ok (Buf.ofABuf ⟨List.zipWith (· || ·) a.bits b.bits, a.side⟩, Buf.ofABuf b) else .error .valueError :=
-  bor_spec a b
+theorem C06_or (a b : ABuf) : (Buf.bor (Buf.ofABuf a) (Buf.ofABuf b)).map (·.1) =
+    if a.bits.length = b.bits.length then .ok (Buf.ofABuf ⟨List.zipWith (· || ·) a.bits b.bits, a.side⟩) else .error .valueError := by
+  rw [bor_spec, map_fst_ite]
 
-theorem C06_xor (a b : ABuf) : Buf.bxor (Buf.ofABuf a) (Buf.ofABuf b) =
-    if a.bits.length = b.bits.length then .ok (Buf.ofABuf ⟨List.zipWith (fun x y => x != y) a.bits b.bits, a.side⟩, Buf.ofABuf b) else .error .valueError :=
-  bxor_spec a b
+theorem C06_xor (a b : ABuf) : (Buf.bxor (Buf.ofABuf a) (Buf.ofABuf b)).map (·.1) =
+    if a.bits.length = b.bits.length then .ok (Buf.ofABuf ⟨List.zipWith (fun x y => x != y) a.bits b.bits, a.side⟩) else .error .valueError := by
+  rw [bxor_spec, map_fst_ite]
 
 /-- `~` flips every bit and nothing else -/
 theorem C06_invert (a : ABuf) : (Buf.ofABuf a).invert = .ok (Buf.ofABuf ⟨a.bits.map not, a.side⟩) := invert_spec a
 
-/-- `value()` is the unsigned big-endian integer the bits spell; the Buffer is unchanged -/
-theorem C06_value (a : ABuf) : (Buf.ofABuf a).value = .ok (Bits.toNat a.bits, Buf.ofABuf a) := value_spec a
+/-- `value()` is the unsigned big-endian integer the bits spell (the Buffer being unchanged is `C16_pure_value`) -/
+theorem C06_value (a : ABuf) : (Buf.ofABuf a).value.map (·.1) = .ok (Bits.toNat a.bits) := value_val a
 
 /-- `chunks(n, padding)`: consecutive `n`-bit pieces, the last zero-extended when padding is requested -/
 theorem C06_chunks (a : ABuf) (n : Nat) (hn : 0 < n) (pad : Bool) :
